@@ -437,3 +437,104 @@ Example C06_proxy_machine_nonvacuous :
   /\ ws_dial lib (redial_token good []) = DialTo true (bs "snowflake.torproject.net")
   /\ good <> [].
 Proof. vm_compute. repeat split. discriminate. Qed.
+
+(* ==================================================================================================================
+   The proxy BINARY: from the command line of /repo/proxy/main.go to the configuration its sessions run under
+   (Model/ProxyMain.v: the struct literal of main(), the defaulting and the configuration checks of Start()).
+   The correspondence check runs the real main() in-process, one process per command line, against a stub broker
+   (Run/NameMatcherMain.v op mainrun, harness/overlay/proxy/zz_verif_c06_main_test.go).
+   ================================================================================================================== *)
+From Snow Require Import Model.ProxyMain Proofs.ProxyMainProofs.
+
+(* AllowNonTLSRelay of the proxy that main() starts is the -allow-non-tls-relay flag, nothing else: not -relay (whatever
+   its scheme), not the pattern, not any other flag, not Start(). *)
+Theorem C06_main_allow_non_tls_is_the_flag : forall f : proxy_flags,
+  pc_allow_non_tls (proxy_config_of_flags f) = fl_allow_non_tls f.
+Proof. exact main_allow_is_flag. Qed.
+
+(* RelayDomainNamePattern is the -allowed-relay-hostname-pattern flag (snowflake.torproject.net$ when not given). *)
+Theorem C06_main_pattern_is_the_flag : forall f : proxy_flags,
+  pc_pattern (proxy_config_of_flags f) = flag_or DEFAULT_RELAY_PATTERN (fl_pattern f).
+Proof. exact main_pattern_is_flag. Qed.
+
+(* Two command lines that agree on those two flags run the same relay URL test. *)
+Theorem C06_main_check_reads_two_flags : forall f1 f2 : proxy_flags,
+  fl_pattern f1 = fl_pattern f2 -> fl_allow_non_tls f1 = fl_allow_non_tls f2 ->
+  check_cfg (proxy_config_of_flags f1) = check_cfg (proxy_config_of_flags f2).
+Proof. exact main_check_reads_two_flags. Qed.
+
+(* C06_proxy_never_dials read on the command line. *)
+Theorem C06_main_never_dials : forall (f : proxy_flags) (raw : bytes) (pu : parsed_url),
+  proxy_relay_decision (check_cfg (proxy_config_of_flags f)) raw pu = DialBrokerURL <->
+  raw <> [] /\ exists scheme host, pu = Parsed scheme host
+     /\ is_member (new_matcher (flag_or DEFAULT_RELAY_PATTERN (fl_pattern f))) host = true
+     /\ (fl_allow_non_tls f = true \/ scheme = WSS).
+Proof. exact main_decision_iff. Qed.
+
+(* END TO END: a proxy started WITHOUT -allow-non-tls-relay hands a broker-supplied relay URL to the dialer only when it
+   is a wss URL whose host is inside the pattern flag — whatever its other flags ... *)
+Theorem C06_main_without_flag_session : forall lib (f : proxy_flags) c raw ip t,
+  proxy_main lib f = Some c -> fl_allow_non_tls f = false -> raw <> [] ->
+  run_session lib c raw ip = SDial t ->
+  t = ul_redial lib raw ip /\
+  exists h, ul_parse lib raw = Parsed WSS h
+            /\ is_member (new_matcher (flag_or DEFAULT_RELAY_PATTERN (fl_pattern f))) h = true.
+Proof. exact main_session_without_flag. Qed.
+
+(* ... and over the whole life of the process never makes the dialer connect without TLS, or to a host outside the
+   pattern flag, except by a string printed from the operator's own -relay URL (dialled when the broker supplies no
+   relay URL; its scheme is the operator's business). *)
+Theorem C06_main_without_flag_never_dials_non_tls : forall lib (f : proxy_flags) evs st outs t,
+  redial_preserves lib ->
+  fl_allow_non_tls f = false ->
+  proxy_main_run lib f evs = Some (st, outs) ->
+  In t (ps_dials st) ->
+  (exists ip, t = ul_redial lib (or_default DEFAULT_RELAY_URL (flag_or DEFAULT_RELAY_URL (fl_relay f))) ip)
+  \/ (forall tls h, ws_dial lib t = DialTo tls h ->
+        tls = true /\ is_member (new_matcher (flag_or DEFAULT_RELAY_PATTERN (fl_pattern f))) h = true).
+Proof. exact main_life_without_flag. Qed.
+
+(* Every session of the process is judged under the one configuration of the command line. *)
+Theorem C06_main_history_independent : forall lib (f : proxy_flags) pre raw ip post st outs,
+  proxy_main_run lib f (pre ++ P_Session raw ip :: post) = Some (st, outs) ->
+  nth_error outs (List.length pre) = Some (Some (run_session lib (proxy_config_of_flags f) raw ip)).
+Proof. exact main_run_outcome_at. Qed.
+
+(* A process that reached its first poll has a pattern that ends in $ and a RelayURL that parses. *)
+Theorem C06_main_started_config_checked : forall lib (f : proxy_flags) c,
+  proxy_main lib f = Some c ->
+  is_valid_rule (pc_pattern c) = true /\ ul_parse lib (pc_relay_url c) <> ParseError.
+Proof. exact proxy_main_started. Qed.
+
+(* non-vacuity: the operator relays to a bridge of their own over plain WebSocket and does NOT pass
+   -allow-non-tls-relay: the process starts; a broker-supplied ws:// URL inside the pattern is refused (also one equal
+   to the operator's own -relay URL), the wss:// one is dialled, the empty one dials the operator's relay *)
+Definition ex_main_flags (allow : bool) : proxy_flags :=
+  mk_proxy_flags (Some (bs "ws://snowflake.torproject.net:8080/")) None allow (Some (bs "http://127.0.0.1:8000/")) None
+                 0 false None false false None None.
+Definition ex_main_table : list (bytes * parsed_url) :=
+  [(bs "ws://snowflake.torproject.net:8080/", Parsed (bs "ws") (bs "snowflake.torproject.net"));
+   (redial_token (bs "ws://snowflake.torproject.net:8080/") [], Parsed (bs "ws") (bs "snowflake.torproject.net"));
+   (bs "wss://snowflake.torproject.net/", Parsed (bs "wss") (bs "snowflake.torproject.net"));
+   (redial_token (bs "wss://snowflake.torproject.net/") [], Parsed (bs "wss") (bs "snowflake.torproject.net"));
+   (bs "http://127.0.0.1:8000/", Parsed (bs "http") (bs "127.0.0.1"));
+   (DEFAULT_STUN_URL, Parsed (bs "stun") []);
+   ([], Parsed [] [])].
+
+Example C06_main_nonvacuous :
+  let lib := table_lib ex_main_table in
+  let own := bs "ws://snowflake.torproject.net:8080/" in
+  let good := bs "wss://snowflake.torproject.net/" in
+  redial_preserves lib
+  /\ fl_allow_non_tls (ex_main_flags false) = false
+  /\ (exists st, proxy_main_run lib (ex_main_flags false) [P_Session own []; P_Session good []; P_Session [] []]
+                 = Some (st, [Some SRefused; Some (SDial (redial_token good [])); Some (SDial (redial_token own []))])
+                 /\ ps_dials st = [redial_token own []; redial_token good []])
+  /\ (exists st, proxy_main_run lib (ex_main_flags true) [P_Session own []]
+                 = Some (st, [Some (SDial (redial_token own []))]))
+  /\ proxy_main lib (mk_proxy_flags None (Some (bs "snowflake.torproject.net")) false None None 0 false None false false None None) = None.
+Proof.
+  cbv zeta. split; [apply table_lib_preserves; vm_compute; reflexivity|].
+  split; [reflexivity|]. split; [eexists; vm_compute; split; reflexivity|].
+  split; [eexists; vm_compute; reflexivity|vm_compute; reflexivity].
+Qed.
